@@ -154,7 +154,9 @@ class Printer(BasePrinter):
     ) -> None:
         """Assign a name to a block. The block must not already have one."""
         assert block not in self._blocks
-        if block.name_hint:
+        # A hint of the form bb<n> reads back as an automatic name, and may be the
+        # automatic name of another block: such a block is named automatically.
+        if block.name_hint and not Block.is_default_block_name(block.name_hint):
             curr_ind = self.block_names.get(block.name_hint, 0)
             suffix = f"_{curr_ind}" if curr_ind != 0 else ""
             name = f"{block.name_hint}{suffix}"
